@@ -99,6 +99,32 @@ def crash_workload(args):
         shutil.rmtree(wd, ignore_errors=True)
 
 
+def lagging_crash(variant):
+    """more than 64 MB of journal traffic (the journal is sealed and may be reclaimed) with a keyspace whose acknowledged
+    writes live only in the sealed journal; the process dies without dropping anything; reopen must show every write"""
+    L = ["open plain jcomp=none", "ks h0 hot", "ks h1 cold", "ks h2 idle"]
+    if variant == 1:
+        L += ["put h1 62 00", "rotate h1", "drain"]
+    L += ["put h1 63 01", "batch - h1:p:65:03 h0:p:65:03", "bigfill h0 66 1024 t0", "put h1 64 02", "rotate h0", "drain", "info"]
+    if variant == 2:
+        L += ["bigfill h0 66 1024 t1", "rotate h0", "drain", "info"]
+    L += ["exit 0"]
+    prog = "\n".join(L) + "\n"
+    wd = workdir()
+    try:
+        db = os.path.join(wd, "db")
+        run_fjv(prog, dbdir=db, timeout=300)
+        o, raw, rc = run_fjv("open plain\nks h1 cold\nscan - h1 fwd all\nks h0 hot\nget - h0 65\nsize - h0 %s\n"
+                             % ("bft0%04d" % 65).encode().hex(), dbdir=db, timeout=120)
+        want = ("62=00," if variant == 1 else "") + "63=01,64=02,65=03"
+        if o.get(3) != want or o.get(5) != "some 03" or o.get(6) != "some %d" % (1024 * 1024):
+            return ("after > 64 MB of journal traffic and a process crash, acknowledged writes are missing: cold = %s (expected %s), "
+                    "hot 65 = %s, last big value = %s" % (o.get(3), want, o.get(5), o.get(6)), prog)
+        return None
+    finally:
+        shutil.rmtree(wd, ignore_errors=True)
+
+
 def run(rep, tier, seed, build):
     from common import proof_audit
     obl, dis, pproblems = proof_audit("props/C02.v", THEOREMS, build["coq"])
@@ -108,6 +134,9 @@ def run(rep, tier, seed, build):
     for r_ in results:
         calls.update(r_["calls"])
     bad = [r_ for r_ in results if r_["problems"]]
+    lag = [x for x in pmap(lagging_crash, [0, 1] if tier == "quick" else [0, 1, 2], workers=3) if x]
+    for msg, prog in lag[:1]:
+        rep.violation("# C02: %s\n# (the process exits without dropping the database = crash)\n%s" % (msg, prog))
     for r_ in bad[:3]:
         p = r_["problems"][0]
         rep.violation("# C02: %s\n# crash before event %s (torn after %s bytes): %s\n# reopen: %s  recovered: %s\n"
@@ -123,7 +152,7 @@ def run(rep, tier, seed, build):
                              "journal writes; a fresh process reopens and dumps all keyspaces; accepted = the model's state after the last "
                              "acknowledged operation or after the operation in flight; non-trivial workload = > 5 events",
                         samples=[r_["sample"] for r_ in results if r_.get("sample")][:3], workloads=n,
-                        crash_points=runs, torn_write_points=sum(r_["torn"] for r_ in results),
+                        large_traffic_crash_scenarios=2 if tier == "quick" else 3, crash_points=runs, torn_write_points=sum(r_["torn"] for r_ in results),
                         syscall_histogram=dict(calls), disagreements_checked=len(bad), exhaustive=(tier != "quick"),
                         journal_theorems=THEOREMS, journal_theorems_discharged=dis, journal_theorem_problems=pproblems)
     if pproblems and not rep.violations:
